@@ -3,9 +3,11 @@ package rewriter
 import (
 	"fmt"
 	"go/ast"
+	"go/parser"
 	"go/token"
 	"go/types"
 	"log"
+	"os"
 	"regexp"
 	"sort"
 	"strings"
@@ -31,6 +33,7 @@ type rewriter struct {
 	seqImportedName string
 	yieldFuncDecls  map[*ast.FuncDecl]bool
 	yieldFuncLits   map[*ast.FuncLit]bool
+	textComments    textComments // of the file written last, see patchTextComments
 	comments        []*ast.CommentGroup
 }
 
@@ -197,38 +200,33 @@ func (r *rewriter) rewriteFile(f *loader.File, printer FilePrinter) {
 		// prefer their directives (go:embed, go:noinline, cgo preamble ...) to the attached source of func lits
 		r.comments = nil
 	}
-	all := f.File.Comments
+	r.textComments = collectTextComments(f.File)
 	f.File.Comments = r.comments
-	if kept := docsAndExampleOutputs(f.File, all, r.comments); kept != nil {
-		f.File.Comments = kept
-	}
 	printer(f.Filename, f)
 }
 
 var exampleOutputPrefix = regexp.MustCompile(`(?i)^[[:space:]]*(unordered )?output:`)
 
-// go test only runs an Example func that has an output comment, a free-floating comment of its body: keep it.
-// A //go:debug directive in front of the package clause sets a runtime default of the program: keep it.
-// With a comment list the printer ignores the doc comments of the nodes, so they have to be in the list as well then.
-// nil when the file has no such comment
-func docsAndExampleOutputs(f *ast.File, all, attached []*ast.CommentGroup) []*ast.CommentGroup {
-	var outputs []*ast.CommentGroup
-	needList := false
-	for _, cg := range all {
+// comments with a meaning that are neither docs nor attached sources, they are dropped with the other free-floating
+// comments and put back into the TEXT of the written file (the printer can't place them: most nodes of a rewritten
+// file have no position):
+//   - //go:debug directives in front of the package clause (runtime defaults of the program)
+//   - the output comment of an Example func, without it go test compiles the Example but doesn't run it
+type textComments struct {
+	debug   []string            // //go:debug lines
+	outputs map[string][]string // Example func => lines of its output comment
+}
+
+func collectTextComments(f *ast.File) (tc textComments) {
+	for _, cg := range f.Comments {
 		if cg.Pos() > f.Package {
 			break
 		}
-		var debug []*ast.Comment
 		for _, c := range cg.List {
-			if strings.HasPrefix(c.Text, "//go:debug ") {
-				debug = append(debug, c)
+			if strings.HasPrefix(c.Text, "//go:debug ") && cg != f.Doc /*printed with the package clause*/ {
+				tc.debug = append(tc.debug, c.Text)
 			}
 		}
-		if debug != nil && cg != f.Doc /* the docs are added below */ {
-			// without the other lines of the group (the build constraint)
-			outputs = append(outputs, &ast.CommentGroup{List: debug})
-		}
-		needList = needList || debug != nil
 	}
 	for _, decl := range f.Decls {
 		fn, _ := decl.(*ast.FuncDecl)
@@ -237,47 +235,62 @@ func docsAndExampleOutputs(f *ast.File, all, attached []*ast.CommentGroup) []*as
 		}
 		// the last comment of the body, as go/doc does
 		var last *ast.CommentGroup
-		for _, cg := range all {
+		for _, cg := range f.Comments {
 			if fn.Body.Lbrace < cg.Pos() && cg.End() <= fn.Body.Rbrace {
 				last = cg
 			}
 		}
 		if last != nil && exampleOutputPrefix.MatchString(last.Text()) {
-			outputs = append(outputs, last)
-		}
-	}
-	if outputs == nil && !needList {
-		return nil
-	}
-	kept := append(outputs, attached...)
-	add := func(docs ...*ast.CommentGroup) {
-		for _, doc := range docs {
-			if doc != nil {
-				kept = append(kept, doc)
+			if tc.outputs == nil {
+				tc.outputs = map[string][]string{}
+			}
+			for _, c := range last.List {
+				tc.outputs[fn.Name.Name] = append(tc.outputs[fn.Name.Name], c.Text)
 			}
 		}
 	}
-	ast.Inspect(f, func(n ast.Node) bool {
-		switch n := n.(type) {
-		case *ast.File:
-			add(n.Doc)
-		case *ast.FuncDecl:
-			add(n.Doc)
-		case *ast.GenDecl:
-			add(n.Doc)
-		case *ast.ImportSpec:
-			add(n.Doc, n.Comment)
-		case *ast.ValueSpec:
-			add(n.Doc, n.Comment)
-		case *ast.TypeSpec:
-			add(n.Doc, n.Comment)
-		case *ast.Field:
-			add(n.Doc, n.Comment)
+	return
+}
+
+// patchTextComments puts the comments collected from the file written last into filename, the file it was written to
+func (r *rewriter) patchTextComments(filename string) {
+	tc := r.textComments
+	r.textComments = textComments{}
+	if tc.debug == nil && tc.outputs == nil {
+		return
+	}
+	src, err := os.ReadFile(filename)
+	panicIf(err)
+	fset := token.NewFileSet()
+	file, err := parser.ParseFile(fset, filename, src, parser.ParseComments)
+	panicIf(err)
+	type insertion struct {
+		offset int
+		text   string
+	}
+	var ins []insertion
+	if tc.debug != nil {
+		// behind the generated code header (it has to stay the prefix of the file), in front of the package doc
+		at, text := file.Package, strings.Join(tc.debug, "\n")+"\n\n"
+		if file.Doc != nil {
+			at = file.Doc.Pos()
 		}
-		return true
-	})
-	sort.SliceStable(kept, func(i, j int) bool { return kept[i].Pos() < kept[j].Pos() })
-	return kept
+		offset := fset.Position(at).Offset
+		if i := strings.Index(string(src), generatedBy+"\n"); i >= 0 && i < fset.Position(file.Package).Offset {
+			offset, text = i+len(generatedBy)+1, "\n"+text
+		}
+		ins = append(ins, insertion{offset, text})
+	}
+	for _, decl := range file.Decls {
+		if fn, _ := decl.(*ast.FuncDecl); fn != nil && fn.Recv == nil && fn.Body != nil && tc.outputs[fn.Name.Name] != nil {
+			ins = append(ins, insertion{fset.Position(fn.Body.Rbrace).Offset, "\t" + strings.Join(tc.outputs[fn.Name.Name], "\n\t") + "\n"})
+		}
+	}
+	sort.Slice(ins, func(i, j int) bool { return ins[i].offset > ins[j].offset })
+	for _, in := range ins {
+		src = append(src[:in.offset:in.offset], append([]byte(in.text), src[in.offset:]...)...)
+	}
+	panicIf(os.WriteFile(filename, src, 0o644))
 }
 
 // Yield / YieldFrom are stubs, a reference surviving the rewriting would drop its values silently,
